@@ -326,8 +326,8 @@ func (o OrderedCollectionPage) Equals(with Item) bool {
 	result := true
 
 	err := OnOrderedCollectionPage(with, func(w *OrderedCollectionPage) error {
-		OnOrderedCollection(w, func(wo *OrderedCollection) error {
-			if !wo.Equals(o) {
+		OnOrderedCollection(o, func(co *OrderedCollection) error {
+			if !co.Equals(w) {
 				result = false
 				return nil
 			}
